@@ -128,6 +128,11 @@ pub fn public_key_der_from_cose_key(key: &CoseKey) -> Result<Bytes, Ctap2Error> 
     let (Some(x), Some(y)) = (x, y) else {
         return Err(Ctap2Error::CborUnexpectedType);
     };
+    // `GenericArray::from_slice` panics on slices which are not exactly the size of a coordinate.
+    const COORDINATE_LEN: usize = 32;
+    if x.len() != COORDINATE_LEN || y.len() != COORDINATE_LEN {
+        return Err(Ctap2Error::InvalidCredential);
+    }
 
     let point = EncodedPoint::from_affine_coordinates(
         GenericArray::from_slice(x.as_slice()),
